@@ -82,6 +82,11 @@ CLAIMS["C19"] = dict(
    text="Decides the structural reasons why distinct objects cannot interfere: the lazily initialised curve registry is read, loaded, updated and decorated only inside one re-entrant critical section; no buffer shared between objects is handed to native code (which runs without the GIL); every copy() yields a new object with its own native state (copied from self in the right direction, result checked), its own nested stateful objects and its own mutable containers; point operators work on copies. The C-side half (no writable statics, read-only contexts, per-object scratch, whole-state *_copy) is the E-C part. Concurrent use of one object is outside the property.",
    note="Reviewed exceptions are listed with a reason in vstat/props/c19_extra.py (CMAC._ecb and _cipher_params are only read).")
 
+CLAIMS["C17"] = dict(
+   technique="FFI contract rules over all Python call sites into the native libraries (status tested, size_t wrapping, output buffer length = length argument, raw-pointer lifetime); C rules over LLVM IR and the clang AST: error-discipline reference edges, guard conformance by region enumeration over the guard prefix of C functions, whole-array comparisons, whole-state copies, reviewed inclusive loop bounds",
+   text="Decides structural necessary conditions of memory safety at the Python/C boundary and in the length checks that protect the decoders: no native status is dropped (Python or C side), output buffers have the length the native code is told, the OAEP/PKCS#1 decoders refuse exactly the lengths for which their index arithmetic would leave the buffers, raw pointers are not held across the release of their owner, multi-limb values are compared whole, loops over caller-sized objects use exclusive bounds. A whole-program bounds proof of the bignum/EC code is not in reach of this technique and is not claimed.",
+   note="Reference edges for the C error discipline are frozen from the pinned tree's IR in vstat/spec/c_checked_calls.json (Engler-style: today's checked call sites are the reference); reviewed inclusive loops in vstat/props/c17_extra.py.")
+
 NOT_YET = {}
 
 ALL = ["C%02d" % i for i in range(1, 21)]
